@@ -23,7 +23,7 @@ open Droop
 
 def gregoryRun (p : Nat) (c : Case) (t : St Int) : Prop :=
   runRuleSt (fixedArith p) c = some t
-    ∧ RecMon (snaps t.acts)
+    ∧ Mon t
     ∧ (t.crash = none → nEl t = t.seats ∧ nHop t = 0)
 
 theorem methodOf_gregory {r : String} (h : r ∈ ["wigm", "wigm-prf", "wigm-prf-batch", "scotland", "cfer", "cfer-batch", "mpls"]) :
